@@ -102,3 +102,13 @@ def _(src: Str, dlm: Str, policy: Str, preserve_quotes_and_whitespaces: Bool) ->
     ensures(implies(not preserve_quotes_and_whitespaces, contents(result[0]) == record_fields(src, dlm, policy)), 'fields_by_policy')
     ensures(implies(not preserve_quotes_and_whitespaces, result[1] == record_warn(src, dlm, policy)), 'warning_by_policy')
     ensures(is_fresh(result[0]), 'fresh_list')
+
+
+@contract('csv_utils.quote_field', name='C10.quote_field', props=['C10'])
+def _(src: Str, delim: Str) -> Str:
+    ensures(result == quote_spec(src, delim, False), 'quoted_iff_needed')
+
+
+@contract('csv_utils.rfc_quote_field', name='C10.rfc_quote_field', props=['C10'])
+def _(src: Str, delim: Str) -> Str:
+    ensures(result == quote_spec(src, delim, True), 'quoted_iff_needed_rfc')
